@@ -6,7 +6,8 @@
 set -u
 cd "$(dirname "$0")"
 export GOFLAGS=-mod=mod GOPROXY=off GOSUMDB=off GOTOOLCHAIN=local CGO_ENABLED=1
-VERIF=/verif
+VERIF="$(pwd)"          # normally /verif; a snapshot under /root/.vp/runs/<n>/verif works too
+export VERIF_DIR="$VERIF"
 BIN=$VERIF/bin
 mkdir -p "$BIN" "$VERIF/evidence" "$VERIF/replays" "$VERIF/.work"
 
